@@ -229,7 +229,7 @@ func runC14(r *Report, tier string) {
 				visit(ct)
 			}
 		}
-		r.floor("R14.4", n, 3, "coordinate length comparisons")
+		r.floorSoft("R14.4", n, 3, "coordinate length comparisons")
 	}
 
 	// R14.5
